@@ -4,7 +4,7 @@ CONSTANTS
   MaxBody = 1
   Depth = 1
   SiteKinds = {"plain", "call", "ident"}
-  ItemKinds = {"assign", "fn", "arrow", "fnparam", "classfield", "block"}
+  ItemKinds = {"assign", "fn", "arrow", "fnparam", "classfield", "block", "userdecl"}
 INIT Init
 NEXT Next
 VIEW view
